@@ -2,11 +2,14 @@
    Only statements, `exact` proofs and Print Assumptions live here. Models and proofs: theories/Line.v (abstract model of
    shape/line.go over the oracles vox_top / vox_in / mid / small, and its executable float instance), theories/LineA1.v
    (assumption A1 per axis at the real level), theories/LineCheck.v (the run-time checker and its soundness).
-   Level: proof on the abstract model for EVERY oracle; the chain theorem is PARTIAL for the float code: it assumes A1/A2 for
-   the float index functions (proved here for the exact real-number index functions) and holds outside the finding class
-   retruncation_unstable_endpoint (D14), which is refuted with a witness. *)
+   Level: proof ON THE MODEL (a Gallina transcription of shape/line.go, tied to the Go code by differential execution only) for
+   EVERY oracle, conditional on the run returning (`Some l`: fuel 64 not exhausted — not proved, and false for the Go code on
+   altitudes >= 2^43 where it does not terminate). The chain theorem for the float model is PARTIAL: it holds for runs whose
+   visited nodes pass a decidable A1/A2 check (reported by every harness case; proved for the exact real-number index functions
+   only) and outside the finding class retruncation_unstable_endpoint (D14), which is refuted with a witness. No theorem says that
+   a returned voxel intersects the segment: that clause is validated at run time by the slab test only. *)
 From Coq Require Import ZArith String List Lia Floats QArith Reals Lra.
-From SID Require Import Base Str Ids Shift F64 PointF Line LineA1 LineCheck.
+From SID Require Import Base Str Ids Shift Wire F64 PointF Line LineA1 LineCheck DC06.
 Import ListNotations.
 Close Scope Q_scope.
 Close Scope R_scope.
@@ -40,22 +43,31 @@ Theorem C06_members : forall (P : Type) (vox_top vox_in : P -> eid) mid small fu
 Proof. exact line_members. Qed.
 Print Assumptions C06_members.
 
-(* every emitted voxel is the (recursion's) voxel of the midpoint of the k-th of the 2^n equal pieces of the segment ... *)
+(* every emitted voxel is the recursion's voxel (vox_in: the point is stored once more first, i.e. its latitude is cut by SetLat
+   again) of the `mid` of a piece (a, b) obtained from the segment by repeatedly replacing a piece by one of its halves *)
 Theorem C06_emitted_voxels_are_voxels_of_piece_midpoints : forall (P : Type) (vox_in : P -> eid) mid small s e fuel l,
   mids P vox_in mid small fuel s e = Some l ->
   forall v, In v l -> exists a b k n, sub mid s e a b k n /\ v = vox_in (mid a b).
 Proof. intros P vox_in mid small s e fuel l. exact (mids_sub P vox_in mid small s e fuel s e 0 O l (sub0 mid s e)). Qed.
 Print Assumptions C06_emitted_voxels_are_voxels_of_piece_midpoints.
-(* ... and on every coordinate c for which `mid` is the exact midpoint, that point is the linear interpolation point of the
-   dyadic parameter t = (2k+1)/2^(n+1), 0 < t < 1 (the same t on all axes): "only voxels of points of the straight segment",
-   up to the rounding of the float midpoint *)
-Theorem C06_piece_midpoints_are_dyadic_interpolation_points : forall (P : Type) (mid : P -> P -> P) (c : P -> Q),
+(* the same for the float model: the voxel of the re-stored FLOAT midpoint start + 0.5 * (end - start) of a piece. The float
+   midpoint is not the exact midpoint (rounding), and the voxel is taken after one more SetLat cut (up to 1e-10 degrees), so this
+   does NOT say that the voxel meets the straight segment (it can miss it by a row: classes retruncation_unstable_endpoint,
+   setlat_cut_row_shift). *)
+Theorem C06_float_model_emits_voxels_of_float_midpoints : forall m_tan m_cos m_log h v s e l,
+  mids point (vox_in_pt m_tan m_cos m_log h v) mid_pt (small_pt (thresholds h v)) line_fuel s e = Some l ->
+  forall i, In i l -> exists a b k n, sub mid_pt s e a b k n /\ i = vox_in_pt m_tan m_cos m_log h v (mid_pt a b).
+Proof. intros m_tan m_cos m_log h v s e. exact (C06_emitted_voxels_are_voxels_of_piece_midpoints point _ mid_pt _ s e line_fuel). Qed.
+Print Assumptions C06_float_model_emits_voxels_of_float_midpoints.
+(* IDEAL midpoints only (NOT satisfied by the float mid_pt on any coordinate): if `mid` is the exact midpoint for a coordinate c,
+   the midpoint of piece k at level n is the interpolation point of parameter (2k+1)/2^(n+1), the same on every such coordinate *)
+Theorem C06_ideal_piece_midpoints_are_dyadic_interpolation_points : forall (P : Type) (mid : P -> P -> P) (c : P -> Q),
   (forall a b, (c (mid a b) == (c a + c b) / 2)%Q) ->
   forall s e a b k n, sub mid s e a b k n ->
   (c (mid a b) == c s + (inject_Z (2 * k + 1) / inject_Z (2 ^ Z.of_nat (S n))) * (c e - c s))%Q /\
   0 < 2 * k + 1 < 2 ^ Z.of_nat (S n).
 Proof. exact sub_mid_coord. Qed.
-Print Assumptions C06_piece_midpoints_are_dyadic_interpolation_points.
+Print Assumptions C06_ideal_piece_midpoints_are_dyadic_interpolation_points.
 
 (* chain theorem, general form: for any notion `adj` of touching such that
    A1 — below the thresholds start, midpoint and end voxels touch, and
@@ -85,33 +97,47 @@ Print Assumptions C06_chain_modular_adjacency.
 
 (* ---------- the float model of the exported functions ---------- *)
 
-(* valid zooms, non-nil points: the API returns the printed IDs of the abstract model instantiated with the bit-exact float
+(* (definitional; the tie to the Go function is the run-time comparison only) valid zooms, non-nil points: the model of the API
+   returns the printed IDs of the abstract model instantiated with the bit-exact float
    functions (midpoint, thresholds by zoom with the switches h >= 31 / v >= 34, x, f, SetLat) and the oracle row *)
-Theorem C06_api_is_the_model : forall m_tan m_cos m_log s e h v, check_zoom h = true -> check_zoom v = true ->
+Theorem C06_model_api_unfolds_to_abstract_model : forall m_tan m_cos m_log s e h v, check_zoom h = true -> check_zoom v = true ->
   line_api m_tan m_cos m_log false s e h v =
   match line_ids_pt m_tan m_cos m_log h v s e with Some l => Ok (map print_eid l) | None => Err end.
 Proof. exact line_api_model. Qed.
-Print Assumptions C06_api_is_the_model.
+Print Assumptions C06_model_api_unfolds_to_abstract_model.
 (* a nil point or a zoom outside 0..35 is an error *)
 Theorem C06_api_errors : forall m_tan m_cos m_log has_nil s e h v,
   has_nil = true \/ check_zoom h = false \/ check_zoom v = false -> line_api m_tan m_cos m_log has_nil s e h v = Err.
 Proof. exact line_api_errors. Qed.
 Print Assumptions C06_api_errors.
 
-(* PARTIAL (float model, every oracle): outside the finding class retruncation_unstable_endpoint, and assuming A1 and A2 for
-   the float index functions with PLAIN 26-adjacency (no wrap), the returned set is one connected chain. Missing for a full
-   theorem: A1/A2 for the float functions themselves (proved below for the exact real-number index functions; validated on
-   every run by the checker's plain-adjacency search on the implementation's output) and sufficiency of fuel 64 (the
-   high-water mark is reported by every run). *)
-Theorem C06_float_model_connected_partial : forall m_tan m_cos m_log h v s e l,
-  A1_pt m_tan m_cos m_log h v -> A2_pt m_tan m_cos m_log h v ->
+(* PARTIAL (float model, every oracle). `line_run` is the executed model; its flag says that every node the recursion visited
+   passed the A1/A2 check for plain 26-adjacency with end points at longitude 180 folded (A1: a node that stops below the
+   thresholds has start, midpoint, end voxels touching; A2: a face neighbour in the code's wrapping test is a real neighbour).
+   If the flag is true and no end point is in the finding class, the returned set is one connected chain.
+   Missing for a full theorem: that the flag is true for all inputs of the domain (observed on every harness case and reported;
+   A1 is proved below for the exact real-number index functions only) and that fuel 64 suffices. *)
+Theorem C06_float_model_connected_checked_partial : forall m_tan m_cos m_log h v s e l d,
+  line_run m_tan m_cos m_log h v s e = Some (l, d, true) ->
   unstable_endpoint m_tan m_cos m_log h v s = false -> unstable_endpoint m_tan m_cos m_log h v e = false ->
-  line_ids_pt m_tan m_cos m_log h v s e = Some l ->
-  forall i, In i l -> reach adjP l (vox_top_pt m_tan m_cos m_log h v s) i.
-Proof. exact line_pt_connected_partial. Qed.
-Print Assumptions C06_float_model_connected_partial.
+  forall i, In i l -> reach (adjF (folds_pt m_tan m_cos m_log h v s e)) l (vox_top_pt m_tan m_cos m_log h v s) i.
+Proof. exact line_pt_checked_connected. Qed.
+Print Assumptions C06_float_model_connected_checked_partial.
+(* the hypotheses hold for real segments (equator: the only libm answers needed are Tan 0 = 0, Cos 0 = 1, Log 1 = 0):
+   (10,0,-3)-(10.5,0,40) at h = 12, v = 22, and (179.9,0,5)-(180,0,5) at h = 14, v = 3, which ends on the folded meridian *)
+Example C06_checked_partial_nonvacuous_1 :
+  exists l d, line_run eq_tan eq_cos eq_log 12 22 eq_s1 eq_e1 = Some (l, d, true) /\ (10 < List.length l)%nat /\
+  unstable_endpoint eq_tan eq_cos eq_log 12 22 eq_s1 = false /\ unstable_endpoint eq_tan eq_cos eq_log 12 22 eq_e1 = false.
+Proof. exact eq_run1. Qed.
+Example C06_checked_partial_nonvacuous_2 :
+  exists l d, line_run eq_tan eq_cos eq_log 14 3 eq_s2 eq_e2 = Some (l, d, true) /\
+  In (mk 14 0 8192 3 0) l /\ In (mk 14 16383 8192 3 0) l /\
+  unstable_endpoint eq_tan eq_cos eq_log 14 3 eq_s2 = false /\ unstable_endpoint eq_tan eq_cos eq_log 14 3 eq_e2 = false.
+Proof. exact eq_run2. Qed.
 
-(* ---------- A1 at the level of real numbers: thresholds against cell sizes, all zooms 0..35 ---------- *)
+(* ---------- A1 at the level of real numbers: thresholds against cell sizes, all zooms 0..35.
+   These are about the exact index functions Xr / Yr / Fr (no fold of longitude 180, no clamp, no SetLat cut) and the exact
+   midpoint; they are NOT connected by a theorem to the float functions of the model ---------- *)
 Open Scope R_scope.
 (* longitude: spans below LonMinima (h <= 30) / HightZoomLonMinima (h >= 31) keep start, midpoint and end columns adjacent *)
 Theorem C06_A1_longitude : forall h s e, (0 <= h <= 35)%Z -> Rabs (e - s) < thr_lon h ->
@@ -178,16 +204,25 @@ Print Assumptions C06_checker_sound.
    interval [t0,t1] within [0,1] on which the linearly interpolated longitude lies in the box of column x and the altitude in
    the box of index f (exact rational arithmetic on the floats' values, boxes widened by tol_lon = 2^-38 degrees and
    tol_alt = 2^-44 relative), and the voxel's row lies between the code's own rows of the two extreme latitudes of that
-   interval widened by tol_lat = 2^-33 degrees (SetLat cuts every latitude by up to 1e-10 degrees before the row is taken) *)
-Theorem C06_slab_test_meaning : forall rowf g h v i, slab_voxel rowf g h v i = true ->
+   interval widened by tl (run time: tl = tol_lat0 = 2^-40 degrees for the verdict; tl = tol_lat = 2^-33 degrees only to classify
+   what the SetLat cut of up to 1e-10 degrees explains). The latitude part rests on the code's own row function. *)
+Theorem C06_slab_test_meaning : forall rowf tl g h v i, slab_voxel rowf tl g h v i = true ->
   exists (k : Z) (t0 t1 : Q), (k = 0 \/ k = 1) /\ (0 <= t0)%Q /\ (t0 <= t1)%Q /\ (t1 <= 1)%Q /\
     (forall t, (t0 <= t <= t1)%Q -> in_lon_box g h (ex i) k t /\ in_alt_box g v (ef i) t) /\
     exists r1 r2,
-      rowf (q2f (qmax (at_t (q_ps g) (q_pe g) t0) (at_t (q_ps g) (q_pe g) t1) + tol_lat)%Q) = Some r1 /\
-      rowf (q2f (qmin (at_t (q_ps g) (q_pe g) t0) (at_t (q_ps g) (q_pe g) t1) - tol_lat)%Q) = Some r2 /\
+      rowf (q2f (qmax (at_t (q_ps g) (q_pe g) t0) (at_t (q_ps g) (q_pe g) t1) + tl)%Q) = Some r1 /\
+      rowf (q2f (qmin (at_t (q_ps g) (q_pe g) t0) (at_t (q_ps g) (q_pe g) t1) - tl)%Q) = Some r2 /\
       r1 <= ey i <= r2.
 Proof. exact slab_voxel_sound. Qed.
 Print Assumptions C06_slab_test_meaning.
+
+(* the verdict `prop` the dispatcher returns for a successful observed ID set IS check_line with the strict latitude band
+   (and no two equal ID strings): "prop failed" means the proved checker rejected the implementation's output *)
+Theorem C06_dispatch_prop_is_the_checker : forall rowf vs ve vis vie folds g h v o ids,
+  fst (judge rowf vs ve vis vie folds g h v o ids) =
+  (nodup_strings o && check_line vs ve folds (slab_voxel rowf tol_lat0 g h v) h v ids)%bool.
+Proof. exact judge_prop. Qed.
+Print Assumptions C06_dispatch_prop_is_the_checker.
 
 (* ---------- non-vacuity ---------- *)
 (* an oracle satisfying every hypothesis of the chain theorem, with a run that goes through all four branches *)
@@ -217,7 +252,7 @@ Qed.
 (* ---- tie to the source by regeneration (DESIGN.md 4.2): the six termination thresholds and the two zoom switches of shape/line.go,
    read from /repo's current source as exact decimals (m, e) = m * 10^e, are the values the model uses ---- *)
 From SIDGen Require Generated.
-From SID Require GenEqConst.
+From SID Require GenEqConst LineGen.
 Theorem C06_generated_thresholds_are_the_models :
   (Generated.LonMinima, Generated.LatMinima, Generated.AltMinima) = ((2, -8), (2, -8), (3, -3))%Z /\
   (Generated.HightZoomLonMinima, Generated.HightZoomLatMinima, Generated.HightZoomAltMinima) = ((5, -9), (5, -10), (5, -4))%Z.
@@ -226,3 +261,22 @@ Print Assumptions C06_generated_thresholds_are_the_models.
 Theorem C06_generated_zoom_switches_are_the_models : (Generated.LineSwitch_hZoom, Generated.LineSwitch_vZoom) = (31, 34)%Z.
 Proof. exact GenEqConst.gen_line_switches_eq. Qed.
 Print Assumptions C06_generated_zoom_switches_are_the_models.
+(* ... and the model's own constants are those values: the binary64 literals of Line.v are the correctly rounded doubles of the
+   generated decimals, the switches of Line.thresholds and the real thresholds of LineA1 (thr_lon/thr_lat/thr_alt) are the
+   generated ones *)
+Theorem C06_model_float_constants_are_the_generated_decimals :
+  feqb_bits c_lon_min (LineGen.dec2f Generated.LonMinima) = true /\ feqb_bits c_lat_min (LineGen.dec2f Generated.LatMinima) = true /\
+  feqb_bits c_alt_min (LineGen.dec2f Generated.AltMinima) = true /\
+  feqb_bits c_hz_lon_min (LineGen.dec2f Generated.HightZoomLonMinima) = true /\
+  feqb_bits c_hz_lat_min (LineGen.dec2f Generated.HightZoomLatMinima) = true /\
+  feqb_bits c_hz_alt_min (LineGen.dec2f Generated.HightZoomAltMinima) = true.
+Proof. exact LineGen.line_float_constants_are_generated. Qed.
+Print Assumptions C06_model_float_constants_are_the_generated_decimals.
+Theorem C06_model_switches_and_real_thresholds_are_the_generated_ones :
+  (hz_switch = Generated.LineSwitch_hZoom /\ vz_switch = Generated.LineSwitch_vZoom) /\
+  forall h v,
+  thr_lon h = (if (Generated.LineSwitch_hZoom <=? h)%Z then LineGen.dec2r Generated.HightZoomLonMinima else LineGen.dec2r Generated.LonMinima) /\
+  thr_lat h = (if (Generated.LineSwitch_hZoom <=? h)%Z then LineGen.dec2r Generated.HightZoomLatMinima else LineGen.dec2r Generated.LatMinima) /\
+  thr_alt v = (if (Generated.LineSwitch_vZoom <=? v)%Z then LineGen.dec2r Generated.HightZoomAltMinima else LineGen.dec2r Generated.AltMinima).
+Proof. exact (conj LineGen.line_switches_are_generated LineGen.line_real_thresholds_are_generated). Qed.
+Print Assumptions C06_model_switches_and_real_thresholds_are_the_generated_ones.
